@@ -242,7 +242,7 @@ static std::string run_case(Session& S, const std::string& line) {
     return ev;
   };
   auto pump_all = [&]() {
-    for (int round = 0; round < 50; round++) {
+    for (int round = 0; round < 200; round++) {
       bool moved = false;
       for (auto& pk : peers)
         if (pk.second.w && pk.second.w->fd != -1 && pk.second.w->flush() > 0) moved = true;
@@ -250,11 +250,16 @@ static std::string run_case(Session& S, const std::string& line) {
       for (auto& pk : peers)
         if (pk.second.w && pk.second.w->fd != -1 && pk.second.w->recv_available() > 0) moved = true;
       if (!moved) {
-        // real-time slack for loopback delivery
-        usleep(300);
-        bool again = S.step();
-        for (auto& pk : peers)
-          if (pk.second.w && pk.second.w->fd != -1 && pk.second.w->recv_available() > 0) again = true;
+        // real-time slack for loopback delivery: three quiet rounds in a row (a loaded machine delays ACKs)
+        bool again = false;
+        for (int q = 0; q < 3 && !again; q++) {
+          usleep(400);
+          for (auto& pk : peers)
+            if (pk.second.w && pk.second.w->fd != -1 && pk.second.w->flush() > 0) again = true;
+          if (S.step()) again = true;
+          for (auto& pk : peers)
+            if (pk.second.w && pk.second.w->fd != -1 && pk.second.w->recv_available() > 0) again = true;
+        }
         if (!again) break;
       }
     }
